@@ -91,6 +91,10 @@ fn progs_for(front: &str, tier: Tier) -> Vec<(Program, Mode)> {
     add("dtunknown-maint|maint", cap, crowd(), vec![vec![api(Op::Set(k.clone(), v(0, 0)))], vec![api(Op::Put(j.clone(), v(1, 0)))]], true, b2);
     add("dtunknown-deleter|set-get", cap, crowd(), vec![vec![POp::Unlink(loc("k")), POp::Unlink(loc("x1"))], vec![api(Op::Set(j.clone(), v(1, 0))), api(Op::Get(k.clone()))]], true, b2);
     add("dtunknown-deleter|put", cap, crowd(), vec![vec![POp::Unlink(loc("x2")), POp::Unlink(loc("j"))], vec![api(Op::Put(k.clone(), v(1, 1)))]], true, b2);
+    // a value staged in the cache's own .kismet_temp and dated a day ahead of the local clock (copied with its timestamps,
+    // or written on a host whose clock runs ahead), while a peer's write maintains the directory, temp files included
+    add("stagedfuture-set|maint-put", cap, crowd(), vec![vec![api(Op::Set(k.clone(), v(0, 0)))], vec![api(Op::Put(j.clone(), v(1, 0)))]], true, b2);
+    add("stagedfuture-puttemp|maint-set", cap, crowd(), vec![vec![api(Op::PutTemp(k.clone(), v(0, 0)))], vec![api(Op::Set(j.clone(), v(1, 0)))]], true, b2);
     // the destination of a put is deleted and published again by peers while the put is between its link and its touch
     add(
         "put|deleter|republisher",
@@ -218,7 +222,7 @@ pub fn run(tier: Tier, shard: Shard, rep: &mut Report) {
         directories crowded with entries of different ages and read marks (so maintenance both unlinks and re-queues), plus an adversary \
         whose operations are unlink(<published cache file>) schedulable at any call boundary, plus programs starting with no cache \
         directory at all (create_dir_all races with rename/link); plain, sharded (shard directories initially missing) and stacked \
-        front-ends; three of the races again on a filesystem whose listings report no entry type (DT_UNKNOWN); every interleaving with <= 2 preemptions (thorough: bound 3, 3 participants, unbounded for one pair). Oracle: every \
+        front-ends; three of the races again on a filesystem whose listings report no entry type (DT_UNKNOWN); writes whose value is staged in the cache's own .kismet_temp and dated a day ahead while a peer's write maintains that directory; every interleaving with <= 2 preemptions (thorough: bound 3, 3 participants, unbounded for one pair). Oracle: every \
         operation returns Ok (a lost race shows as a miss / false / a completed write), no panic, no deadlock. Plus, single-participant: every call of every C02 scenario that names a cache entry \
         answered ENOENT and ESTALE in turn (what a concurrent removal looks like on a network filesystem): the operation must not fail; likewise every call naming a piece of debris in .kismet_temp \
         (which a peer's maintenance reclaims too). Non-trivial = execution with >= 1 preemption."
